@@ -2448,6 +2448,17 @@ def accessors(repo, tier):
         return {"obligations": [g], "functions": []}
 
 
+def metadata_mirror(repo, tier):
+    """Round 7: `ImageMetadata.__post_init__` -- the dict view the statement observes holds the fields of the same name (c14_access)."""
+    try:
+        from contracts import c14_access as A
+        return confirm_natively(A.run_metadata_mirror(repo, tier, contracts), repo)
+    except Exception as e:  # noqa
+        g = ground_obligation("C14/data_types.py::ImageMetadata.__post_init__/ensures#executable", False, f"not executable: {type(e).__name__}: {e}"[:300], DT,
+                              kind="ensures", definite=False)
+        return {"obligations": [g], "functions": []}
+
+
 def content_type_helpers(repo, tier):
     """Round 7: the content-type helpers of the library (xlsx `_get_content_type`, ODF `guess_content_type`) under a contract verified on the
     real body over a symbolic part name (contracts/c14_access.py::run_helpers); the call sites keep the syntactic `content-type#` view, which
@@ -2462,7 +2473,7 @@ def content_type_helpers(repo, tier):
 
 
 EXTRA = [_site_runner(i) for i in range(len(SITES))] + [image_sites, sniffers_agree, seq_lemmas, pdf_content_type, rel_type_selection, odf_length, accessors,
-                                                        content_type_helpers]
+                                                        content_type_helpers, metadata_mirror]
 
 
 def lemmas():
@@ -2496,8 +2507,9 @@ ASSUMED_MODELS = ["str.split('/') = SEGS, '/'.join = JOINS (uninterpreted; repla
                   "the position; any other stream operation is outside the model (-> unknown); replay reads every accessor's stream twice",
                   "data_types._odf_length_to_px AT ITS CALL SITE in OpenDocumentImage.get_metadata: None for None (implied by the verified contract), result == PX(argument) for a str (determinism only); "
                   "the function's own 96-dpi contract is VERIFIED on its body (odf_length) and is not weakened by this view",
-                  "ImageMetadata.__post_init__ / __setattr__ mirror the dataclass fields into the dict view (dict.__init__ is not modelled); "
-                  "replay/C14.py::check_accessors compares attribute view and dict view on its grid"]
+                  "ImageMetadata.__setattr__ mirrors each field assignment into the dict view (dict.__setitem__ through super(); not modelled); what "
+                  "__post_init__ writes is VERIFIED (metadata_mirror); replay/C14.py::check_metadata_mirror / check_accessors compare attribute view and "
+                  "dict view natively (construction by keyword / position / defaults, later assignment)"]
 ASSUMPTIONS = ["JPEG: a stream that leaves the T.81 marker chain before a frame header (non-FF byte at a marker position, standalone marker, "
                "EOI/SOS first, truncated frame header) declares no size in the sense of the statement: result unconstrained there",
                "BMP: signed little-endian width / height at 18 / 22 as in the property's format clause (BITMAPINFOHEADER family)"]
